@@ -31,7 +31,7 @@ contract("dyn:ResultSet.results_for_rule_and_file", trusted=True, functional=Tru
 # own `apply` is verified against these clauses (C03/C04/C10 contracts).
 DYN_APPLY_ENSURES = [
     ("only the file being processed can change on disk",
-     "all(implies(p != file_context.file_path, fs[p] == old(fs)[p]) for p in ANY('Opaque'))"),
+     "fs == store(old(fs), file_context.file_path, fs[file_context.file_path])"),
     ("dry-run or no changeset => nothing is written", "implies(context.dry_run or result is None, fs == old(fs))"),
 ]
 _FC_MOD = ["file_context.codemod_changes", "file_context.unfixed_findings", "file_context.failures",
@@ -72,7 +72,7 @@ contract("codemodder.codemods.base_codemod.BaseCodemod._process_file", props=["C
              ("no finding of this codemod's rules in this file => the transformer is not invoked: nothing written, nothing reported",
               "implies(results is not None and all(len(" + _LOOKUP + ") == 0 for j in range(len(rules))),"
               " fs == old(fs) and len(result.changesets) == 0 and len(result.codemod_changes) == 0 and len(result.failures) == 0)"),
-             ("only this file can change on disk", "all(implies(p != filename, fs[p] == old(fs)[p]) for p in ANY('Opaque'))"),
+             ("only this file can change on disk", "fs == store(old(fs), filename, fs[filename])"),
              ("dry-run writes nothing", "implies(context.dry_run, fs == old(fs))"),
              ("line excludes: a path:line pattern spelled relative to the target applies to this file (must)",
               "all(implies(n in file_line_patterns(filename.relative_to(context.directory), context.path_exclude), n in result.line_exclude) for n in ANY('int'))"),
